@@ -661,6 +661,28 @@ static void exec_step(proc *pr, const pline *l)
     } else if (pis(l, "RECON") || pis(l, "RECOFF")) {
         extern void mon_record(int kind, int idx, bool on);
         mon_record((int)((uint64_t)pa(l, 1) % 5), (int)((uint64_t)pa(l, 2) % 4), pis(l, "RECON"));
+    } else if (pis(l, "OBS")) {
+        /* change the observer set while processes wait: unsubscribe an observing condition, subscribe a new one,
+         * or ask to unsubscribe one that is not subscribed (documented to return false) */
+        if (W.ncond == 0 || W.nguards == 0) return;
+        extern void mon_subscribed(int c, int g); extern void mon_unsubscribed(int c, int g); extern bool mon_observes(int c, int g);
+        const int c = (int)((uint64_t)pa(l, 1) % (uint64_t)W.ncond);
+        const int g = (int)((uint64_t)pa(l, 2) % (uint64_t)W.nguards);
+        if (W.guards[g].cls == GC_COND) return;
+        const int64_t how = pa(l, 3);
+        TR4("obs", c, g, how, mon_observes(c, g));
+        if (mon_observes(c, g)) {
+            const bool r = (how & 1) ? cmb_condition_unsubscribe(W.cond[c], W.guards[g].g) : cmb_resourceguard_unregister(W.guards[g].g, &W.cond[c]->guard);
+            if (!r) viol("C13", "unsubscribe-retval", "unsubscribing condition %d from guard %d returned false although it was subscribed", c, g);
+            mon_unsubscribed(c, g);
+        } else if (how & 2) {
+            const bool r = cmb_resourceguard_unregister(W.guards[g].g, &W.cond[c]->guard);
+            if (r) viol("C13", "unsubscribe-retval", "unsubscribing condition %d from guard %d returned true although it was not subscribed", c, g);
+            PROBE("cond.unsubscribe_absent");
+        } else {
+            if (how & 1) cmb_condition_subscribe(W.cond[c], W.guards[g].g); else cmb_resourceguard_register(W.guards[g].g, &W.cond[c]->guard);
+            mon_subscribed(c, g);
+        }
     } else if (pis(l, "REPORT")) {
         /* the text reports, at any moment: never recorded, while recording, after recording */
         static FILE *devnull;
